@@ -79,6 +79,55 @@ theorem stdBody_render (rest : List Char) (hr : rest.head? ≠ some '\'') :
       rw [List.cons_append, hX]
       simp [stdBody, hq, ih]
 
+/-! ### MySQL reader of the MySQL rendering -/
+def encM (c : Char) : List Char := if c = '\'' then ['\'', '\''] else if c = '\\' then ['\\', '\\'] else [c]
+
+theorem renderBody_mysql_cons (c : Char) (t : List Char) :
+    renderBody true (c :: t) = encM c ++ renderBody true t := by
+  simp only [renderBody, if_true]
+  by_cases hq : c = '\''
+  · subst hq
+    rw [replace1_cons_eq]
+    simp only [List.cons_append, List.nil_append]
+    rw [replace1_cons_ne (by decide), replace1_cons_ne (by decide)]
+    simp [encM]
+  · rw [replace1_cons_ne hq]
+    by_cases hb : c = '\\'
+    · subst hb
+      rw [replace1_cons_eq]; simp [encM]
+    · rw [replace1_cons_ne hb]; simp [encM, hq, hb]
+
+theorem mysqlBody_close (rest : List Char) (hr : rest.head? ≠ some '\'') :
+    mysqlBody ('\'' :: rest) = some ([], rest) := by
+  cases rest with
+  | nil => simp [mysqlBody]
+  | cons d t =>
+    have : d ≠ '\'' := by simpa using hr
+    simp [mysqlBody, this]
+
+theorem mysqlBody_render (rest : List Char) (hr : rest.head? ≠ some '\'') :
+    ∀ v : List Char, mysqlBody (renderBody true v ++ '\'' :: rest) = some (v, rest)
+  | [] => by
+    have : renderBody true [] = [] := by simp [renderBody, replace1_nil]
+    simpa [this] using mysqlBody_close rest hr
+  | c :: t => by
+    have ih := mysqlBody_render rest hr t
+    rw [renderBody_mysql_cons]
+    by_cases hq : c = '\''
+    · subst hq
+      simp [encM, mysqlBody, ih]
+    · by_cases hb : c = '\\'
+      · subst hb
+        simp [encM, mysqlBody, mysqlEsc, ih]
+      · obtain ⟨d, T, hX⟩ : ∃ d T, renderBody true t ++ '\'' :: rest = d :: T := by
+          cases renderBody true t with
+          | nil => exact ⟨_, _, rfl⟩
+          | cons a b => exact ⟨_, _, rfl⟩
+        rw [hX] at ih
+        simp only [encM, hq, hb, if_false, List.cons_append, List.nil_append]
+        rw [hX]
+        simp [mysqlBody, hq, hb, ih]
+
 /-! ### integers -/
 theorem digitsValue_repr (n : Nat) : digitsValue (Nat.repr n).toList = n := by
   rw [Nat.toList_repr]
